@@ -6,7 +6,7 @@
    wf_named a : all libraries, definitions, ports, cables and instances are named, sibling names
                 are unique (any characters, * ? [ ] included), every pin on a wire belongs to a
                 port or to a child with a reference, property dictionaries have unique keys.
-                (No longer required since the repairs 2243c09 / 62eff9e / 814f5eb of /repo: names
+                (No longer required since the repairs 57b99ec / 4f7bd74 / f4be0be of /repo: names
                 without * and ?, ports with at least one pin, four fields in SDN_Assignment_ names.)
    no_asg a   : no instance has an assignment name: SDN_Assignment_<x>_<width>... (prefix and at
                 least four "_" separated fields; a shorter name is an ordinary name)            *)
@@ -478,7 +478,7 @@ Proof. exact cmp_inst_assert_only_ex. Qed.
    properties: compare() returns or raises AssertionError.  (Ill is not an outcome of the code: it
    marks values that are not the abstraction of a netlist - a pin on a wire whose instance or port
    cannot be followed, never produced by harness/cmp_canon.py without being reported.)
-   Was false before the repair 62eff9e: IndexError (name.split("_")[3]), AttributeError
+   Was false before the repair 4f7bd74: IndexError (name.split("_")[3]), AttributeError
    (None.startswith, None.library, None.pins), TypeError ("..." + None).                      *)
 Theorem C20_raises_only_assertion : forall a b,
   cmp_run a b = Accept \/ cmp_run a b = Reject \/ cmp_run a b = Ill.
